@@ -1100,25 +1100,26 @@ impl Entry {
             )
         };
 
-        let new_root = SyntaxNode::new_root_mut(
-            self.0.replace_with(
-                self.0
-                    .green()
-                    .splice_children(position..position, new_children),
-            ),
+        // the new entry node (replace_with would give the whole new root,
+        // which must not be spliced into the parent)
+        let new_entry = SyntaxNode::new_root_mut(
+            self.0
+                .green()
+                .splice_children(position..position, new_children),
         );
 
         if let Some(parent) = self.0.parent() {
-            parent.splice_children(self.0.index()..self.0.index() + 1, vec![new_root.into()]);
+            let index = self.0.index();
+            parent.splice_children(index..index + 1, vec![new_entry.into()]);
             self.0 = parent
                 .children_with_tokens()
-                .nth(self.0.index())
+                .nth(index)
                 .unwrap()
                 .clone()
                 .into_node()
                 .unwrap();
         } else {
-            self.0 = new_root;
+            self.0 = new_entry;
         }
     }
 }
